@@ -70,6 +70,12 @@ func c01Witnesses() []witness {
 		{"f2iRange", baseWitness([]*wstmt{wStore(0, &wexpr{k: "cast", ty: tU32, args: []*wexpr{wBitcast(tF32, wInp(0))}})}), inp(0xbf800000)},
 		{"bitField", baseWitness([]*wstmt{wStore(0, wCall(tU32, "extractBits", wInp(0), wBin(tU32, "&", wInp(1), wLitU(63)), wBin(tU32, "&", wInp(2), wLitU(63))))}), inp(0xdeadbeef, 20, 20)},
 		{"frem", baseWitness([]*wstmt{wStore(0, wBitcast(tU32, wBin(tF32, "%", wBitcast(tF32, wInp(0)), wBitcast(tF32, wInp(1)))))}), inp(0xc0600000, 0x40000000)},
+		{"letsnap", baseWitness([]*wstmt{
+			{k: "var", name: "vv1", ty: tArr(4, tU32), e: &wexpr{k: "cons", ty: tArr(4, tU32), args: []*wexpr{wInp(0), wLitU(7), wLitU(3), wLitU(6)}}},
+			{k: "let", name: "ll2", ty: tArr(4, tU32), e: &wexpr{k: "var", ty: tArr(4, tU32), name: "vv1"}},
+			{k: "assign", lhs: &wexpr{k: "idx", ty: tU32, args: []*wexpr{{k: "var", ty: tArr(4, tU32), name: "vv1"}, wLitU(1)}}, e: wLitU(99)},
+			wStore(4, &wexpr{k: "idx", ty: tU32, args: []*wexpr{{k: "var", ty: tArr(4, tU32), name: "ll2"}, wBin(tU32, "%", wInp(14), wLitU(4))}}),
+		}), inp(5, 0, 0, 0, 0, 0, 0, 0, 0, 0, 0, 0, 0, 0, 1)},
 		{"fordne", baseWitness([]*wstmt{wStore(0, sel(wBin(tBool, "!=", wBitcast(tF32, wInp(0)), wBitcast(tF32, wInp(1)))))}), inp(0x7fc00000, 0x3f800000)},
 	}
 }
@@ -87,6 +93,9 @@ func cmdC01Witness(c *ctx) {
 		shape := ""
 		if hasMultiSpill(w.m) {
 			shape = " spill2"
+		}
+		if hasLetSnapshot(w.m) {
+			shape += " letsnap"
 		}
 		c.line("tags.txt", fmt.Sprintf("%s witness%s", w.knob, shape))
 	}
